@@ -1069,10 +1069,15 @@ func scenarios() []*scenario {
 	for _, after := range []string{"", "m"} {
 		after := after
 		add("Tags", "after="+after, []role{rListTags}, func(x *execCtx) {
-			x.step("Tags", -1, func() error { return iterate(x, "Tags", x.c.Tags(ctx, repo, after)) })
+			seq := x.c.Tags(ctx, repo, after)
+			x.step("Tags", -1, func() error { return iterate(x, "Tags", seq) })
+			// the same sequence value once more, whatever the first pass ran into: no panic, no hang
+			x.step("Tags.again", 1<<20, func() error { iterate(x, "Tags.again", seq); return nil })
 		}).list = true
 		add("Repositories", "after="+after, []role{rListCatalog}, func(x *execCtx) {
-			x.step("Repositories", -1, func() error { return iterate(x, "Repositories", x.c.Repositories(ctx, after)) })
+			seq := x.c.Repositories(ctx, after)
+			x.step("Repositories", -1, func() error { return iterate(x, "Repositories", seq) })
+			x.step("Repositories.again", 1<<20, func() error { iterate(x, "Repositories.again", seq); return nil })
 		}).list = true
 	}
 	return out
